@@ -39,6 +39,25 @@ def frame_for(body):
     return _frames[body]
 
 
+SISTER_K = (0.7, 1.3)
+
+
+def sister_frame(body, k):
+    """A frame with the same origin and axes as frame_for(body), whose central body is k times as massive:
+    changing to it leaves position and velocity alone and changes every mu-dependent element."""
+    name = f"VF{body}x{k}"
+    if name not in _frames:
+        from beyond import constants
+        from beyond.frames import center, frames, orient
+
+        base = frames.get_frame(frame_for(body)) if isinstance(frame_for(body), str) else frame_for(body)
+        b = getattr(constants, body)
+        c = center.Center(name + "C", body=constants.Body(name, b.mass * k, b.equatorial_radius))
+        c.add_link(base.center, orient.EME2000, np.zeros(6))
+        _frames[name] = frames.Frame(name, orient.EME2000, c)
+    return _frames[name]
+
+
 def mu_of(body):
     from beyond import constants
 
@@ -386,8 +405,9 @@ def walk_case(draw, shard, nshards):
         objs.append(draw(go.elements(elliptic=not hyp, hyperbolic=hyp, bodies=BODIES)))
     ops = []
     for _ in range(draw(st.integers(4, 14))):
-        ops.append(dict(op=draw(st.sampled_from(["set", "set", "copy", "infos", "twin"])),
-                        obj=draw(st.integers(0, n - 1)), form=draw(st.integers(0, 9))))
+        ops.append(dict(op=draw(st.sampled_from(["set", "set", "copy", "infos", "twin", "reframe"])),
+                        obj=draw(st.integers(0, n - 1)), form=draw(st.integers(0, 9)),
+                        k=draw(st.integers(0, len(SISTER_K))), inplace=draw(st.booleans())))
     return dict(objs=objs, ops=ops)
 
 
@@ -396,6 +416,9 @@ def check_walk(case):
     from beyond.orbits import StateVector
 
     svs, refs, ks, polar = [], [], [], []
+    els = [dict(el) for el in case["objs"]]  # the elements of each state around its *current* central body
+    mus = [mu_of(el["body"]) for el in els]
+    reframed = 0
     for el in case["objs"]:
         mu = mu_of(el["body"])
         cart = tb.kep2cart(el["a"], el["e"], el["i"], el["raan"], el["argp"], el["nu"], mu)
@@ -408,12 +431,37 @@ def check_walk(case):
     worst = 0.0
     for n, op in enumerate(case["ops"]):
         i = op["obj"]
-        el = case["objs"][i]
+        el = els[i]
         forms = HYP_FORMS if el["e"] > 1 else FORMS
         form = forms[op["form"] % len(forms)]
         if form in ("spherical", "cylindrical"):
             ks[i] = max(ks[i], kappa(el) * polar[i])
-        if op["op"] == "set":
+        expect_form = form if op["op"] in ("set", "copy") else None
+        if op["op"] == "reframe":
+            # same origin, same axes, another central body: position and velocity stay, the elements are
+            # those around the new body
+            body = case["objs"][i]["body"]
+            k = op.get("k", 0)
+            mu2 = mu_of(body) * (SISTER_K[k - 1] if k else 1.0)
+            try:
+                e2 = tb.cart2elements(refs[i], mu2)
+            except ZeroDivisionError:  # exactly parabolic around the new body: outside the quantifier
+                e2 = dict(e=1.0)
+            ok = (1e-4 <= e2["e"] <= 0.99 or 1.001 <= e2["e"] <= 20) and \
+                (e2["e"] < 1 or svs[i].form.name in HYP_FORMS)
+            if ok and mu2 != mus[i]:
+                new = sister_frame(body, SISTER_K[k - 1]) if k else frame_for(body)
+                expect_form = svs[i].form.name  # a change of frame keeps the form
+                if op.get("inplace"):
+                    svs[i].frame = new
+                else:
+                    svs[i] = svs[i].copy(frame=new)
+                mus[i] = mu2
+                els[i] = el = dict(el, a=e2["a"], e=e2["e"], anom=e2["M"] if e2["e"] < 1 else e2["E"])
+                ks[i] = max(ks[i], kappa(el) * (polar[i] if svs[i].form.name in ("spherical", "cylindrical") else 1))
+                steps[i] += 1
+                reframed += 1
+        elif op["op"] == "set":
             svs[i].form = form
             steps[i] += 1
         elif op["op"] == "copy":
@@ -423,7 +471,7 @@ def check_walk(case):
             # a copy in another form, dropped: the original must not follow it
             svs[i].copy(form=form)
         else:
-            mu = mu_of(el["body"])
+            mu = mus[i]
             got = float(svs[i].infos.energy)
             want = -mu / (2 * el["a"])
             if abs(got - want) > (1e-9 * ks[i] + 1e-9) * (steps[i] + 1) * abs(want):
@@ -431,19 +479,21 @@ def check_walk(case):
                                 f"defining relation gives {want!r}", op=n)
         # every object, not only the one touched, still is the state it was built from
         for j, sv in enumerate(svs):
-            if op["op"] in ("set", "copy") and j == i and sv.form.name != form:
-                raise Violation("form-name", f"op {n}: form is {sv.form.name} after {op['op']} to {form}", op=n)
+            if expect_form is not None and j == i and sv.form.name != expect_form:
+                raise Violation("form-name", f"op {n}: form is {sv.form.name} after {op['op']}, expected {expect_form}", op=n)
             dr, dv = cart_err(sv.copy(form="cartesian").base, refs[j])
             tol = (1e-11 * ks[j] + 1e-10) * (steps[j] + 2)
             worst = max(worst, max(dr, dv) / tol)
             if dr > tol or dv > tol:
-                raise Violation("walk", f"after op {n} ({op['op']} object {i} -> {form}) object {j} "
+                raise Violation("walk", f"after op {n} ({op['op']} object {i} -> {form if op['op'] != 'reframe' else 'k=' + str(op.get('k'))}) object {j} "
                                 f"({sv.form.name}, body {case['objs'][j]['body']}) is off by dr={dr:.3g} dv={dv:.3g} "
                                 f"(tol {tol:.3g})", op=n, dr=dr, dv=dv)
     bodies = {el["body"] for el in case["objs"]}
     cls = [f"objects:{len(svs)}"] + (["mixed-bodies"] if len(bodies) > 1 else [])
     if any(el["e"] > 1 for el in case["objs"]) and any(el["e"] < 1 for el in case["objs"]):
         cls.append("ellipse+hyperbola")
+    if reframed:
+        cls.append("central-body-changed")
     return dict(nt=max(steps) >= 2, cls=cls, ratio=worst)
 
 
